@@ -333,6 +333,15 @@ def D35():
     d = eao.io.extract_output(pf, op, op.optimize(), pr)['dispatch']
     return f"3 assets on 2 nodes = 4 (asset, node) pairs, dispatch table has {d.shape[1]} columns: {list(d.columns)}"
 
+@witness
+def D36():
+    tg = grid(); pr = sine(tg)
+    a = A.CHPAsset_with_min_load_costs(name='chp', nodes=[N1, A.Node('h')], price='p', min_cap=1., max_cap=10., start=dt.datetime(2021, 1, 1, 6),
+            min_load_threshhold={'start': [dt.datetime(2021, 1, 1, 0), dt.datetime(2021, 1, 1, 12)], 'end': [dt.datetime(2021, 1, 1, 12), dt.datetime(2021, 1, 2, 0)], 'values': [2., 6.]},
+            min_load_costs=5., start_costs=1.)
+    op = a.setup_optim_problem(pr, tg)
+    return 'no error: %d variables' % len(op.c)
+
 if __name__ == '__main__':
     which = sys.argv[1:] or list(W)
     for k in which:
